@@ -105,6 +105,9 @@ func (e *Ethernet) UnmarshalBinary(data []byte) error {
 			return err
 		}
 		n += int(e.VLANID.Len())
+		if len(data) < n+2 {
+			return errors.New("The []byte is too short to unmarshal a full tagged Ethernet message.")
+		}
 
 		e.Ethertype = binary.BigEndian.Uint16(data[n:])
 	} else {
